@@ -147,6 +147,7 @@ Proof.
                     | eapply exec_dict_err_same in H; [exact H|auto|exact DG]
                     | solve [eapply DG; exact H]
                     | progress (inv H; reflexivity)
+                    | progress (unfold exec_ulist in H)
                     | dmh H ]).
   - subst tk. rewrite S in H.
     destruct o; simpl in B; try discriminate;
